@@ -251,6 +251,23 @@ func vfE8LUnreadableCmd(cmd *exec.Cmd, dir string) string {
 	if os.Geteuid() != 0 {
 		return "chmod-0222"
 	}
+	// the unprivileged child must be able to reach the directory and the test binary: every parent needs o+x
+	// (a work dir under /root, mode 0700, is not: the fault cannot be injected there and the probe says "unavailable")
+	for _, p := range []string{dir, os.Args[0]} {
+		abs, err := filepath.Abs(p)
+		if err != nil {
+			return "uid-switch-unavailable"
+		}
+		for d := filepath.Dir(abs); ; d = filepath.Dir(d) {
+			st, err := os.Stat(d)
+			if err != nil || st.Mode().Perm()&0o001 == 0 {
+				return "uid-switch-unavailable"
+			}
+			if d == "/" || d == "." {
+				break
+			}
+		}
+	}
 	os.Chmod(dir, 0o777)
 	cmd.SysProcAttr = &syscall.SysProcAttr{Credential: &syscall.Credential{Uid: 65534, Gid: 65534}}
 	return "chmod-0222+uid-65534"
@@ -348,7 +365,7 @@ func vfE8LB(x bool) int {
 // conf line of the model for a scenario (gzip off, skip-empty off, max-in-flight 1)
 func (c *vfE8LChild) conf(rotateSize int64, workDir bool, hasRev bool) {
 	c.say(fmt.Sprintf("tf conf 0 %d 0 %d 0 1 %d %d %d %d %d", rotateSize, vfE8LB(workDir), vfE8LB(hasRev),
-		vfE8LB(vfE8ProbeCloseClears()), vfE8LB(vfE8ProbeOneWrite()), vfE8LB(vfE8ProbeSealsTail()), vfE8LB(vfE8ProbeSealReadWarns() == 1)))
+		vfE8LB(vfE8ProbeCloseClears()), vfE8LB(vfE8ProbeOneWrite()), vfE8LB(vfE8ProbeSealsTail()), vfE8LB(vfE8ProbeSealReadWarns() != 0)))
 	c.ans("ok")
 }
 
@@ -742,6 +759,11 @@ func TestVerifToFileLines(t *testing.T) {
 		srw, vfE8LSRWHow)
 	scenarios := [][]string{{"torn-pre"}, {"clean-pre"}, {"torn-pre-rotsize"}, {"torn-pre-workdir"}, {"torn-pre-1byte"}, {"kill1", "kill2"}, {"two-routers"},
 		{"unreadable-torn"}, {"unreadable-clean"}, {"unreadable-empty"}}
+	if srw == -1 {
+		// the read fault cannot be injected in this environment: leave the three scenarios that need it out
+		fmt.Printf("LINESNOTE unreadable-file scenarios skipped (%s)\n", vfE8LSRWHow)
+		scenarios = scenarios[:len(scenarios)-3]
+	}
 	ngen := vfEnvInt("VERIF_N", 24)
 	for i := 0; i < ngen; i++ {
 		scenarios = append(scenarios, []string{fmt.Sprintf("gen:%d", i)})
